@@ -167,7 +167,7 @@ def make(cfg):
                           for (o1, l1, t1, _), (o2, l2, t2, _) in zip(a, b)], info)
         return len(a)
 
-    return fn, dict(query_timeout_ms=20000, no_pins=True)
+    return fn, dict(query_timeout_ms=20000, no_pins=True, cvc5_fallback=True)
 
 
 def shapes_for(tier):
